@@ -231,15 +231,15 @@ func h_apply(db *DB, o h_op, reopen func() *DB) *DB {
 // Natively the same workload runs in a child process that strace kills at the k-th openat / write / unlinkat system
 // call, for every k, and a second child reopens the directory.
 func H_C19_OpsAndCrash() {
-	crashAt := zzverif.Enum("crash-before-file-op", 26) // 0: no crash
+	crashAt := zzverif.Enum("crash-before-file-op", 26+10*zzverif.Tier()) // 0: no crash
 	syncEach := zzverif.Enum("sync-on-demand-only", 2) == 0
 	opts := &ExtraOpts{DefragPercentVal: 50, ForcedDefragPerc: 300, MaxPendingNoSync: 10000}
 	if !syncEach {
 		opts.MaxPending = 2500
 	}
-	zzverif.Bound("workload", "3 operations from {Put, Del, Sync, Defrag(force), Close+reopen} on 2 keys, values of 2 arbitrary bytes; crash before the k-th create/write/remove for k in 1..25 or none; MaxPending 0 or 2500")
+	zzverif.Bound("workload", "3 (thorough 4) operations from {Put, Del, Sync, Defrag(force), Close+reopen} on 2 keys, values of 2 arbitrary bytes; crash before the k-th create/write/remove for k in 1..25 (35) or none; MaxPending 0 or 2500")
 	var ops []h_op
-	for step := 0; step < 3; step++ {
+	for step := 0; step < 3+zzverif.Tier(); step++ {
 		o := h_op{kind: zzverif.Enum("op", 5)}
 		if o.kind <= 1 {
 			o.key = KeyType(1 + zzverif.Enum("key", 2))
